@@ -130,3 +130,11 @@ package dns
 //@ extern strings.Contains
 //@   ensures one: len(substr) == 1 ==> ret0 == (exists k in 0..len(s) :: s[k] == substr[0])
 //@   pure
+
+//@ extern (crypto.Hash).New
+//@   ensures ret0 != nil
+//@   pure
+
+//@ extern (net.IPMask).Size
+//@   ensures ret0 >= 0 && ret1 >= 0
+//@   pure
